@@ -188,6 +188,19 @@ def run(tier, seed, replay):
             sp["what"] = [pos]
             specs.append(sp)
             plan.append((pos, car))
+    # documented values: every YAML scalar is a legal parameter value / argument / field value (typed literal), at the edges of every Go kind
+    from vlib import cfggen as _cg
+    SCALARS_OK = ["0", "-1", "9223372036854775807", "-9223372036854775808", "9223372036854775808", "18446744073709551615", "0x1F", "0o17", "0b101", "1e3", "1.5", "-0.0",
+                  "true", "false", "~", "null", "\"\"", "\"text\"", "1_000", "+7", ".5", "12345678901234567890"]
+    for chunk in (SCALARS_OK[:12], SCALARS_OK[12:]):
+        cfg = {"parameters": {"v%d" % i: _cg.Raw(x) for i, x in enumerate(chunk)},
+               "services": {"s": {"constructor": "NewA", "arguments": [_cg.Raw(x) for x in chunk], "calls": [["SetX", [_cg.Raw(x) for x in chunk]]],
+                                  "fields": {"F%d" % i: _cg.Raw(x) for i, x in enumerate(chunk)}, "tags": ["t"]}},
+               "decorators": [{"tag": "t", "decorator": "Decorate", "arguments": [_cg.Raw(x) for x in chunk]}]}
+        sp = common.mk_spec(len(specs), [cfg])
+        sp["what"] = ["scalar-values"]
+        specs.append(sp)
+        plan.append(("scalar-values", None))
     # k simultaneous defects, wrong node kinds
     multi = common.random_specs(seed, 150 if tier == "quick" else 2500, "c11multi", inj_rate=1.0, injectors=["grammar", "grammar", "pattern"], nfiles_choices=(1,))
     for sp in multi:
@@ -206,6 +219,11 @@ def run(tier, seed, replay):
     evals = 0
     samples = []
     for sp, ob, (pos, car) in zip(specs, obs, plan):
+        if pos == "scalar-values":
+            evals += 1
+            if ob.get("exit") != 0:
+                out.violation("scalar-value-rejected", "a configuration whose values are plain YAML scalars is rejected: %s" % ((ob.get("errors") or [])[:3],), common.slim(sp, ob))
+            continue
         if pos is None:
             errs = ob.get("errors") or []
             nontrivial.add(json.dumps(errs)[:300])
